@@ -65,7 +65,11 @@ package hashprefix
 
 //@ pred hpItem(f *Filter, k int) = toptr(acval[f.resCache][k], cacheItem)
 //@ pred okRes(r internal.Result) = r == nil || (isptr(r, internal.ResultModifiedRequest) && asptr(r, internal.ResultModifiedRequest) != nil) || (isptr(r, internal.ResultModifiedResponse) && asptr(r, internal.ResultModifiedResponse) != nil)
-//@ pred HPI(f *Filter) = cacheVer[f] <= hsVer[f.hashes] && (forall k int :: achas[f.resCache][k] ==> allocated(hpItem(f, k)) && itemVer[hpItem(f, k)] >= cacheVer[f] && okRes(hpItem(f, k).res))
+// fable(q): the question types the filter answers at all (C11).
+//@ pred fable(q int) = q == 1 || q == 28 || q == 65
+// A verdict other than "pass" is only ever cached under the key of an A, AAAA
+// or HTTPS question.
+//@ pred HPI(f *Filter) = cacheVer[f] <= hsVer[f.hashes] && (forall k int :: achas[f.resCache][k] ==> allocated(hpItem(f, k)) && itemVer[hpItem(f, k)] >= cacheVer[f] && okRes(hpItem(f, k).res) && (hpItem(f, k).res != nil ==> fable(ckType(k))))
 
 // Requests look the cache up and fill it under the read lock; a refresh clears
 // it under the write lock after the new hashes are in place.  Whenever the
@@ -148,6 +152,7 @@ package hashprefix
 //@   atcall CloneForReq assume a-cached-rewritten-request-keeps-its-question: isptr(r, internal.ResultModifiedRequest) ==> asptr(r, internal.ResultModifiedRequest).Msg != nil && len(asptr(r, internal.ResultModifiedRequest).Msg.Question) >= 1
 //@   modifies heap, builtFor, blockedBy
 //@   preserves internal.Request.*, internal.ResultModifiedResponse.*, internal.ResultModifiedRequest.*
+//@   ensures a-cached-pass-is-a-pass: r == nil ==> clone == nil && err == nil
 //@   ensures the-client-gets-its-own-copy: err == nil ==> (r == nil ? clone == nil : ref(clone) != 0 && ref(clone) != ref(r))
 //@   ensures a-cached-rewritten-request-is-rebuilt-from-this-request: isptr(r, internal.ResultModifiedRequest) ==> err == nil && isptr(clone, internal.ResultModifiedRequest) && builtFor[asptr(clone, internal.ResultModifiedRequest).Msg] == req.DNS
 //@   ensures a-cached-blocked-answer-is-rebuilt-by-the-requesters-own-constructor: isptr(r, internal.ResultModifiedResponse) && err == nil ==>
@@ -166,7 +171,7 @@ package hashprefix
 //@   property C12 C07
 //@   atcall Set assert the-cache-keeps-its-own-copy: ref(arg2.res) != 0 && ref(arg2.res) != ref(r)
 //@   held *
-//@   requires f != nil && ref(f.resCache) != 0 && HPI(f) && (isptr(r, internal.ResultModifiedRequest) || isptr(r, internal.ResultModifiedResponse)) && ref(r) != 0
+//@   requires f != nil && ref(f.resCache) != 0 && HPI(f) && (isptr(r, internal.ResultModifiedRequest) || isptr(r, internal.ResultModifiedResponse)) && ref(r) != 0 && fable(ckType(k))
 //@   modifies heap, achas[f.resCache], acval[f.resCache], itemVer
 //@   preserves internal.Request.*, internal.ResultModifiedResponse.*, internal.ResultModifiedRequest.*
 //@   atcall Set set itemVer[arg2] = hsVer[f.hashes]
@@ -190,10 +195,14 @@ package hashprefix
 //@   ensures sound-for-hosts: cacheServes == old(cacheServes) && r != nil ==> (old(req.QType) == 1 || old(req.QType) == 28 || old(req.QType) == 65) && (exists j int :: 0 <= j && j < hsubsLen(old(req.Host)) && listedNow(f.hashes, hsubsAt(old(req.Host), j)))
 //@   ensures complete-for-hosts: cacheServes == old(cacheServes) && r == nil && err == nil && (old(req.QType) == 1 || old(req.QType) == 28 || old(req.QType) == 65) ==> (forall j int :: 0 <= j && j < hsubsLen(old(req.Host)) ==> !listedNow(f.hashes, hsubsAt(old(req.Host), j))) || (exists j int :: 0 <= j && j < hsubsLen(old(req.Host)) && hsubsAt(old(req.Host), j) == "" && listedNow(f.hashes, hsubsAt(old(req.Host), j)))
 //@   ensures other-types-pass: cacheServes == old(cacheServes) && !(old(req.QType) == 1 || old(req.QType) == 28 || old(req.QType) == 65) ==> r == nil && err == nil
+// ... and the result cache does not change that: whatever it holds, a question
+// of another type is never answered by the filter.
+//@   ensures other-types-pass-with-or-without-the-cache: !fable(old(req.QType)) ==> r == nil && err == nil
 // C12/C02: with or without the result cache, a blocked answer is the one the
 // requester's own settings produce - built by the requester's constructor
 // (blocking mode, filtered-response TTL), whoever filled the cache.
 //@   ensures a-blocked-answer-is-built-by-the-requesters-own-constructor: err == nil && isptr(r, internal.ResultModifiedResponse) ==> blockedBy[asptr(r, internal.ResultModifiedResponse).Msg] == old(req.Messages)
+//@   atcall filteredResult assert a-match-is-a-listed-name: exists j int :: 0 <= j && j < hsubsLen(req.Host) && listedNow(f.hashes, hsubsAt(req.Host, j))
 //@   atcall clonedResult set lastVerdictVer = itemVer[item]
 //@   atcall Matches set lastVerdictVer = hsVer[f.hashes]
 //@   atcall Set set itemVer[arg2] = hsVer[f.hashes]
